@@ -25,6 +25,90 @@ def mk(eqm, hm):
     return h, e
 
 
+def exhaustive(chk, kind, keys, n, eqm, hm, name):
+    """XrMapEx: every linear history of <= n updates, assembled into tries of versions (one `let` per
+    version, derived from its parent), every version read back; bucket tables to XrMapRepr."""
+    d = vf.workdir("c17-ex-cfg-" + name)
+    cfg = d + "/XrMapEx.cfg"
+    with open(cfg, "w") as f:
+        f.write('SPECIFICATION Spec\nCONSTANTS Kind = "%s"\n Keys = {%s}\n N = %d\n Eqm = %d\n Hm = %d\nINVARIANT Emit\n'
+                'PROPERTY OnlyTheKeyChanges\nCHECK_DEADLOCK FALSE\n' % (kind, ", ".join(map(str, keys)), n, eqm, hm))
+    r = vf.tlc("XrMapEx", cfg, "c17-ex-" + name, workers=4, timeout=3000)
+    if not r.ok:
+        raise vf.ToolError("XrMapEx failed:\n" + r.out[-2500:])
+    chk.add_tlc(r)
+    nodes = {}
+    for c in r.cases():
+        nodes[tuple((o["op"], o["k"], o["v"]) for o in c["ops"])] = c
+    h, e = mk(eqm, hm)
+    root = ("let n0: Mapping<int, int> = mapping(%s, %s);\n" if kind == "map" else "let n0 = set(%s, %s);\n") % (h, e)
+
+    def step(parent, o):
+        op, k, v = o
+        if op in ("set", "set_default"):
+            return "%s.%s(%d, %d)" % (parent, op, k, v)
+        return "%s.%s(%d)" % (parent, op, k)
+
+    groups = {}
+    for key in nodes:
+        groups.setdefault(key[:2], []).append(key)
+    jobs, jmeta = [], {}
+    for gi, (pre, members) in enumerate(sorted(groups.items())):
+        members.sort(key=lambda k: (len(k), k))
+        names, lines = {(): "n0"}, [root]
+        need = [pre[:i] for i in range(1, len(pre) + 1)] + [m for m in members if len(m) > len(pre)]
+        seen = set()
+        for key in need:
+            if key in seen or key == ():
+                continue
+            seen.add(key)
+            names[key] = "n%d" % len(names)
+            lines.append("let %s = %s;\n" % (names[key], step(names[key[:-1]], key[-1])))
+        jid = "%s-g%d" % (name, gi)
+        jobs.append({"id": jid, "src": "".join(lines), "observe": list(names.values()), "limits": {"calls": 2000000}, "timeout_ms": 60000})
+        jmeta[jid] = names
+    res = vf.run_jobs(jobs, "c17-ex-" + name)
+    cls = (lambda x: x) if eqm == 0 else (lambda x: x % eqm)
+    tables, checked = [], 0
+    for j in jobs:
+        o = res[j["id"]]
+        oc = vf.job_outcome(o)
+        if oc != "ok":
+            chk.violation("history trie: %s %s" % (oc, str(o.get("compile", {}).get("msg") or o.get("inst") or o.get("crash"))[:300]),
+                          {"kind": "map", "source": j["src"], "observed": oc})
+            continue
+        for key, nm in jmeta[j["id"]].items():
+            c = nodes.get(key)
+            if c is None:
+                continue
+            checked += 1
+            chk.count(1)
+            dv = o["values"].get(nm) or {}
+            if c["err"]:
+                good = dv.get("t") == "err"
+            elif kind == "set":
+                good = dv.get("t") == "set" and sorted(cls(int(x["k"]["v"])) for x in dv["entries"]) == c["v"] and dv["len"] == len(c["v"])
+            else:
+                good = dv.get("t") == "map" and sorted([cls(int(x["k"]["v"])), int(x["v"]["v"])] for x in dv["entries"]) == [list(p) for p in c["v"]] \
+                    and dv["len"] == len(c["v"])
+            if good and not c["err"]:
+                tables.append({"ev": "Table", "eqm": eqm, "hm": hm, "len": dv["len"], "hs": [int(x["h"]) for x in dv["entries"]],
+                               "ks": [int(x["k"]["v"]) for x in dv["entries"]], "bn": [x["n"] for x in dv["buckets"]], "_job": j["id"], "_bind": nm})
+            if not good:
+                hist = ".".join("%s(%s)" % (op, k if op not in ("set", "set_default") else "%d, %d" % (k, v)) for op, k, v in key)
+                chk.violation("%s history %s (eq mod %d, hash mod %d): expected %s, observed %s" %
+                              (kind, hist, eqm, hm, "an error value" if c["err"] else json.dumps(c["v"]), json.dumps(dv)[:240]),
+                              {"kind": "map", "source": j["src"], "binding": nm, "expected": c, "observed": dv},
+                              finding_key="history:%s:%s" % (kind, ".".join(op for op, _, _ in key)))
+    for t in vf.accept_records(chk, "XrMapRepr", tables, "c17-ex-repr-" + name):
+        src = [j["src"] for j in jobs if j["id"] == t["_job"]][0]
+        chk.violation("bucket table of %s violates the representation invariant: %s" % (t["_bind"], json.dumps({k2: v for k2, v in t.items() if not k2.startswith("_")})),
+                      {"kind": "map-repr", "source": src, "binding": t["_bind"], "table": t})
+    chk.part("exhaustive_" + name, kind=kind, keys=len(keys), max_history=n, eq_mod=eqm, hash_mod=hm, histories=len(nodes), versions_read_back=checked,
+             tables_validated=len(tables))
+    return len(nodes)
+
+
 def run(chk, tier, seed, name="c17"):
     n = 2000 if tier == "quick" else 8000
     if tier == "dev":
@@ -125,10 +209,21 @@ def run(chk, tier, seed, name="c17"):
                           {"kind": "map-repr", "source": src, "binding": t["_bind"], "table": t})
             chunk = chunk[k + 1:]
     chk.part("histories", programs=len(jobs), tables_validated=len(tables))
+    if tier != "dev":
+        exhaustive(chk, "set", [0, 1, 2], 5, 0, 2, "set-h2")
+        exhaustive(chk, "map", [0, 1, 2], 4, 0, 2, "map-h2")
+        if tier == "thorough":
+            exhaustive(chk, "set", [0, 1, 2, 3], 5, 0, 2, "set4-h2")
+            exhaustive(chk, "set", [0, 1, 2, 3], 5, 2, 1, "set4-e2h1")
+            exhaustive(chk, "map", [0, 1, 2], 5, 0, 1, "map-h1")
+            exhaustive(chk, "map", [0, 1, 2, 3], 4, 3, 2, "map4-e3h2")
+        chk.cov["exhaustive"] = True
     chk.sample({"source": jobs[len(jobs) // 2]["src"][:900], "eq_mod": cases[len(jobs) // 2]["eqm"], "hash_mod": cases[len(jobs) // 2]["hm"]})
     chk.cov["rule"] = ("TLC -simulate walks of XrMap: 14 operations per history over keys 0..5, (hash, eq) drawn per program from "
                        "{identity, mod 2, mod 3} x {injective, mod 2, mod 3, constant}; every version read back at the end; "
-                       "non-trivial = distinct rendered program")
+                       "non-trivial = distinct rendered program; plus XrMapEx: EVERY linear history of <= 5 set updates (add, discard, "
+                       "remove) / <= 4 mapping updates (set, set_default, discard, pop) over 3 keys with a colliding hash, model-checked "
+                       "breadth-first by TLC and read back version by version (exhaustive within these bounds)")
     chk.assumptions += ["hashes outside [0, 2^64) are covered by C19/C17 templates only", "iteration order is not compared (entries are compared as sorted class/value pairs)"]
 
 
